@@ -719,20 +719,31 @@ class NumpyProxy:
                 return _obj_filled(_np.shape(proto), int(v))
         return None
 
+    @staticmethod
+    def _reshaped_like(r, k):
+        """numpy's *_like(..., shape=...) override"""
+        shp = k.get("shape")
+        if shp is None or r is None:
+            return r
+        shp = (int(shp),) if _np.ndim(shp) == 0 else tuple(int(x) for x in shp)
+        out = _np.empty(shp, dtype=r.dtype)
+        out[...] = r.ravel()[0] if r.size else 0
+        return out
+
     def zeros_like(self, proto, dtype=None, **k):
-        r = self._like(proto, dtype, 0)
+        r = self._reshaped_like(self._like(proto, dtype, 0), k)
         if r is not None:
             return r
         if is_symarr(proto):
-            return _np.zeros(proto.shape, dtype=dtype)
+            return _np.zeros(k.get("shape") if k.get("shape") is not None else proto.shape, dtype=dtype)
         return _np.zeros_like(proto, dtype=dtype, **k)
 
     def ones_like(self, proto, dtype=None, **k):
-        r = self._like(proto, dtype, 1)
+        r = self._reshaped_like(self._like(proto, dtype, 1), k)
         if r is not None:
             return r
         if is_symarr(proto):
-            return _np.ones(proto.shape, dtype=dtype)
+            return _np.ones(k.get("shape") if k.get("shape") is not None else proto.shape, dtype=dtype)
         return _np.ones_like(proto, dtype=dtype, **k)
 
     def empty_like(self, proto, dtype=None, **k):
